@@ -4,6 +4,8 @@ Property theorems about `KawinV.PBM` (hand model of PopulationBalance.py, tied t
 source by the correspondence check tools/corr/C07.py).  α is any linearly ordered field.
 -/
 import KawinV.Model.PBMTransport
+import KawinV.Model.GrainGrowth
+import KawinV.Model.PBMGrid
 import Mathlib.Tactic.Ring
 import Mathlib.Tactic.Linarith
 import Mathlib.Tactic.FieldSimp
@@ -800,6 +802,213 @@ theorem dissolutionIndex_spec (n : Nat) (maxDiss : α) (vol : Nat → α) (m : N
     have := h3 j hj
     simpa using this
   · rw [← ha0] at h1; omega
+
+/-! ### the step limit is a statement about the CURRENT distribution and grid
+
+`getDt` of the grain-growth model (GrainGrowth.py 239-244) hands `pbm.getDTEuler` the STORED `self.dissolutionIndex`.
+The clause "the limit equals the stated fraction of the class width divided by the fastest RELEVANT growth rate" is about
+the classes of the grid the population balance holds when the step is proposed; the relevant classes are those at or
+above `getDissolutionIndex(maxDissolution, 0)` of that grid.  Below: the index is a function of the stored distribution and
+grid (equal states give equal index; positive rescaling — `Normalize` — does not change it); `postProcess` stores the index of
+the grid it leaves behind (update → adjust → index → normalize), so the stored index IS the current one; the index before a
+re-binning differs from the one after it (witness); and `getDT` with a stale index — smaller, larger, or beyond the new
+grid — differs from `getDT` with the current index (witnesses).  The oracle `grain-dt-limit` in tools/corr/C07.py evaluates
+exactly `getDT … (stateIndex … current state)` on every iteration of real runs. -/
+
+theorem cumSum_congr (f g : Nat → α) (i : Nat) (h : ∀ j, j ≤ i → f j = g j) :
+    cumSum f i = cumSum g i := by
+  induction i with
+  | zero => simp [cumSum, h 0 (le_refl _)]
+  | succ k ih =>
+    simp only [cumSum]
+    rw [ih (fun j hj => h j (by omega)), h (k+1) (le_refl _)]
+
+theorem cumSum_scale (c : α) (f : Nat → α) (i : Nat) :
+    cumSum (fun j => c * f j) i = c * cumSum f i := by
+  induction i with
+  | zero => simp [cumSum]
+  | succ k ih => simp only [cumSum]; rw [ih]; ring
+
+theorem find?_congr' {β : Type} (l : List β) (p q : β → Bool) (h : ∀ x, x ∈ l → p x = q x) :
+    l.find? p = l.find? q := by
+  induction l with
+  | nil => rfl
+  | cons a as ih =>
+    simp only [List.find?_cons, h a List.mem_cons_self]
+    rw [ih (fun x hx => h x (List.mem_cons_of_mem _ hx))]
+
+theorem argmaxFirst_congr (p q : Nat → Bool) (len : Nat) (h : ∀ i, i < len → p i = q i) :
+    argmaxFirst p len = argmaxFirst q len := by
+  unfold argmaxFirst
+  rw [find?_congr' (List.range len) (fun i => p i) (fun i => q i) (fun x hx => h x (by simpa using hx))]
+
+/-- **the index is a function of the distribution and the grid**: two states whose class volumes
+(`PSD·PSDsize³`) agree on the classes 0..n-1 have the same dissolution index — nothing else enters (no history,
+no previous grid). -/
+theorem dissolutionIndex_congr (n : Nat) (maxDiss : α) (vol vol' : Nat → α) (m : Nat)
+    (h : ∀ i, i < n → vol i = vol' i) :
+    dissolutionIndex n maxDiss vol m = dissolutionIndex n maxDiss vol' m := by
+  have htot : (if n = 0 then (0:α) else cumSum vol (n-1)) = (if n = 0 then (0:α) else cumSum vol' (n-1)) := by
+    by_cases hn : n = 0
+    · simp [hn]
+    · simp only [hn, if_false]
+      exact cumSum_congr _ _ _ (fun j hj => h j (by omega))
+  have harg : argmaxFirst (fun i => decide (maxDiss * (if n = 0 then (0:α) else cumSum vol (n-1)) < cumSum vol i)) n
+      = argmaxFirst (fun i => decide (maxDiss * (if n = 0 then (0:α) else cumSum vol' (n-1)) < cumSum vol' i)) n := by
+    apply argmaxFirst_congr
+    intro i hi
+    rw [htot, cumSum_congr vol vol' i (fun j hj => h j (by omega))]
+  unfold dissolutionIndex
+  simp only [harg]
+
+/-- rescaling all class volumes by a positive factor (what `Normalize` does) leaves the index unchanged -/
+theorem dissolutionIndex_scale (n : Nat) (maxDiss c : α) (hc : 0 < c) (vol : Nat → α) (m : Nat) :
+    dissolutionIndex n maxDiss (fun i => c * vol i) m = dissolutionIndex n maxDiss vol m := by
+  have htot : (if n = 0 then (0:α) else cumSum (fun i => c * vol i) (n-1))
+      = c * (if n = 0 then (0:α) else cumSum vol (n-1)) := by
+    by_cases hn : n = 0
+    · simp [hn]
+    · simp only [hn, if_false]; exact cumSum_scale c vol _
+  have harg : argmaxFirst (fun i => decide (maxDiss * (if n = 0 then (0:α) else cumSum (fun i => c * vol i) (n-1))
+        < cumSum (fun i => c * vol i) i)) n
+      = argmaxFirst (fun i => decide (maxDiss * (if n = 0 then (0:α) else cumSum vol (n-1)) < cumSum vol i)) n := by
+    apply argmaxFirst_congr
+    intro i hi
+    rw [htot, cumSum_scale c vol i, mul_left_comm]
+    exact decide_eq_decide.mpr (mul_lt_mul_iff_of_pos_left hc)
+  unfold dissolutionIndex
+  simp only [harg]
+
+/-- the step limit reads the growth rates and the distribution of classes 0..n-1 and the first class width only -/
+theorem getDT_congr (n d : Nat) (currDT ratio : α) (growth growth' psd psd' bounds bounds' : Nat → α)
+    (hg : ∀ j, j < n → growth j = growth' j) (hp : ∀ j, j < n → psd j = psd' j)
+    (hb0 : bounds 0 = bounds' 0) (hb1 : bounds 1 = bounds' 1) :
+    getDT n d currDT ratio growth psd bounds = getDT n d currDT ratio growth' psd' bounds' := by
+  have hf : dtFilter n d psd' = dtFilter n d psd := by
+    unfold dtFilter
+    apply List.filter_congr
+    intro j hj
+    rw [hp j (by simpa using hj)]
+  have hm : (dtFilter n d psd).map (fun j => absS (growth' j)) = (dtFilter n d psd).map (fun j => absS (growth j)) := by
+    apply List.map_congr_left
+    intro j hj
+    have hjn : j < n := by
+      unfold dtFilter at hj
+      simpa using (List.mem_filter.mp hj).1
+    rw [hg j hjn]
+  unfold getDT
+  simp only [hf, hm, hb0, hb1]
+
+section grain
+open KawinV.Grain
+
+/-- **equal states give equal index** (stored-state form): the index is determined by the number of classes, the
+distribution and the class centres the population balance holds. -/
+theorem stateIndex_congr (maxDiss : α) (s s' : GState α) (hn : s.n = s'.n)
+    (hp : ∀ i, i < s.n → s.psd i = s'.psd i) (hs : ∀ i, i < s.n → s.size i = s'.size i) :
+    stateIndex maxDiss s = stateIndex maxDiss s' := by
+  unfold stateIndex
+  rw [← hn]
+  apply dissolutionIndex_congr
+  intro i hi
+  unfold vol3
+  rw [hp i hi, hs i hi]
+
+/-- order of operations of `postProcess`: the index is taken on the grid left by `adjustSizeClassesEuler` -/
+theorem postProcess_index_adjusted (adjust : GState α → GState α) (maxDiss : α) (x : Nat → α) (s : GState α) :
+    (postProcess adjust maxDiss x s).index = stateIndex maxDiss (adjust { s with psd := truncate x }) := rfl
+
+/-- **the stored index is the index of the stored grid**: after `postProcess` (update → adjust → index → normalize)
+`self.dissolutionIndex` equals `getDissolutionIndex(maxDissolution, 0)` evaluated on the distribution and grid the
+population balance now holds — for ANY grid adjustment (extension, re-binning to fewer classes, dissolution split),
+provided the adjusted distribution is populated (third moment > 0, the divisor of `Normalize`). -/
+theorem postProcess_index_current (adjust : GState α → GState α) (maxDiss : α) (x : Nat → α) (s : GState α)
+    (hM : 0 < moment 3 (adjust { s with psd := truncate x }).n (adjust { s with psd := truncate x }).psd
+      (adjust { s with psd := truncate x }).size) :
+    (postProcess adjust maxDiss x s).index = stateIndex maxDiss (postProcess adjust maxDiss x s).state := by
+  unfold postProcess stateIndex vol3 normalize
+  simp only
+  generalize adjust { s with psd := truncate x } = s2 at hM ⊢
+  have hc : 0 < 1 / moment 3 s2.n s2.psd s2.size := one_div_pos.mpr hM
+  rw [← dissolutionIndex_scale s2.n maxDiss _ hc (fun i => s2.psd i * npow (s2.size i) 3) 0]
+  apply dissolutionIndex_congr
+  intro i hi
+  ring
+
+/-- consequently the step proposed in the next iteration is the step limit for the index of the CURRENT state:
+the requirement the oracle `grain-dt-limit` evaluates on the implementation is the model's statement. -/
+theorem getDt_uses_current_index (adjust : GState α → GState α) (maxDiss remaining ratio : α) (x growth : Nat → α)
+    (s : GState α)
+    (hM : 0 < moment 3 (adjust { s with psd := truncate x }).n (adjust { s with psd := truncate x }).psd
+      (adjust { s with psd := truncate x }).size) :
+    Grain.getDt remaining ratio growth (postProcess adjust maxDiss x s)
+      = getDT (postProcess adjust maxDiss x s).state.n
+          (stateIndex maxDiss (postProcess adjust maxDiss x s).state) remaining ratio growth
+          (postProcess adjust maxDiss x s).state.psd (postProcess adjust maxDiss x s).state.bounds := by
+  unfold Grain.getDt
+  rw [← postProcess_index_current adjust maxDiss x s hM]
+
+/-- a stored state from lists (class centres = midpoints of the boundaries, as `PSDsize`) -/
+def ofLists (psd bounds : List ℚ) : GState ℚ :=
+  { n := psd.length, psd := fun i => psd.getD i 0, bounds := fun i => bounds.getD i 0,
+    size := fun i => (Grid.midpoints bounds).getD i 0 }
+
+/-- witness grid: 4 classes of width 1 on [1,5] holding one grain each … -/
+def wOldBounds : List ℚ := [1, 2, 3, 4, 5]
+def wOldPsd : List ℚ := [1, 1, 1, 1]
+/-- … re-binned onto 2 classes of width 2 (`changeSizeClasses`: interpolation of the number density at the new
+class centres times the new widths, `KawinV.Grid.remeshRaw`; the following rescaling to the old third moment is a
+positive factor, `dissolutionIndex_scale`) -/
+def wNewBounds : List ℚ := [1, 3, 5]
+
+theorem wRemesh : Grid.remeshRaw wOldPsd wOldBounds wNewBounds = [2, 2] := by decide +kernel
+
+/-- **a re-binning changes the index**: with `maxDissolution = 1/10` the index of the grid before the re-binning is 1
+(class 0 holds 27/8 of 153 volume units), the index of the re-binned grid is 0 (class 0 holds 16 of 144). -/
+theorem rebin_changes_index :
+    stateIndex (1/10) (ofLists wOldPsd wOldBounds) = 1 ∧
+    stateIndex (1/10) (ofLists (Grid.remeshRaw wOldPsd wOldBounds wNewBounds) wNewBounds) = 0 := by
+  constructor <;> decide +kernel
+
+/-- growth rates at the three faces of the re-binned witness grid (shrinking small grains, growing large ones) -/
+def wGrowth : Nat → ℚ := fun j => if j = 0 then -4 else if j = 1 then -2 else 1
+
+/-- **a stale index changes the proposed step** (the situation of computing the index BEFORE the grid is adjusted):
+on the re-binned grid the step limit with the current index 0 is `2/5·2/4 = 1/5`; with the index 1 of the OLD grid
+it is `2/5·2/2 = 2/5` — twice the stated limit. -/
+theorem stale_index_after_rebin_changes_step :
+    let s := ofLists (Grid.remeshRaw wOldPsd wOldBounds wNewBounds) wNewBounds
+    getDT s.n (stateIndex (1/10) s) 100 (2/5) wGrowth s.psd s.bounds = 1/5 ∧
+    getDT s.n (stateIndex (1/10) (ofLists wOldPsd wOldBounds)) 100 (2/5) wGrowth s.psd s.bounds = 2/5 := by
+  constructor <;> decide +kernel
+
+/-- three classes of unit width holding one grain each: `getDT` for index 0, 1 and 3 (beyond the grid) -/
+theorem getDT_by_index :
+    getDT 3 0 100 (2/5) wGrowth (fun _ => 1) (fun j => (j : ℚ)) = 1/10 ∧
+    getDT 3 1 100 (2/5) wGrowth (fun _ => 1) (fun j => (j : ℚ)) = 1/5 ∧
+    getDT 3 3 100 (2/5) wGrowth (fun _ => 1) (fun j => (j : ℚ)) = 100 := by
+  refine ⟨?_, ?_, ?_⟩ <;> decide +kernel
+
+/-- **`getDT` with a stale index differs from `getDT` with the current index**: current index 1; a stale SMALLER
+index (0) gives a smaller step, a stale LARGER index that lies beyond the grid (3, e.g. the index of a grid with more
+classes) silently returns the remaining time. -/
+theorem getDT_stale_index_differs :
+    getDT 3 0 100 (2/5) wGrowth (fun _ => 1) (fun j => (j : ℚ)) < getDT 3 1 100 (2/5) wGrowth (fun _ => 1) (fun j => (j : ℚ)) ∧
+    getDT 3 1 100 (2/5) wGrowth (fun _ => 1) (fun j => (j : ℚ)) < getDT 3 3 100 (2/5) wGrowth (fun _ => 1) (fun j => (j : ℚ)) := by
+  obtain ⟨h0, h1, h3⟩ := getDT_by_index
+  rw [h0, h1, h3]; constructor <;> norm_num
+
+/-- non-vacuity of `postProcess_index_current`/`getDt_uses_current_index`: a populated adjusted state exists (and the
+re-binned witness is one: third moment 144) -/
+example : (0:ℚ) < moment 3 (ofLists (Grid.remeshRaw wOldPsd wOldBounds wNewBounds) wNewBounds).n
+    (ofLists (Grid.remeshRaw wOldPsd wOldBounds wNewBounds) wNewBounds).psd
+    (ofLists (Grid.remeshRaw wOldPsd wOldBounds wNewBounds) wNewBounds).size := by decide +kernel
+/-- and the theorem applies to it with the re-binning as the adjustment: stored index 0 = index of the stored grid -/
+example : (postProcess (fun _ => ofLists (Grid.remeshRaw wOldPsd wOldBounds wNewBounds) wNewBounds) (1/10 : ℚ)
+    (fun i => wOldPsd.getD i 0) (ofLists wOldPsd wOldBounds)).index = 0 := by
+  rw [postProcess_index_adjusted]; exact rebin_changes_index.2
+
+end grain
 
 /-! ### non-vacuity: concrete states meeting the hypotheses -/
 
